@@ -666,6 +666,23 @@ val run_actions :
   act list -> rparam list -> key -> key list -> qitem list -> world -> (qitem
   list * world) * fail option
 
+val fetch_get :
+  world -> query -> centry list -> key -> (fail, n * item list) sum
+
+val has_dup : key list -> bool
+
+val fetch_get_all :
+  world -> query -> centry list -> key list -> (fail, n * item list) sum
+
+val fetch_get_many :
+  world -> query -> centry list -> key list -> (fail, n * item list) sum
+
+val probe_lists : key list -> (bool * key list) list
+
+val run_probes :
+  world -> query -> centry list -> (bool * key list) list -> (fail, (n * item
+  list) list) sum
+
 val ev_has_payload : bool -> n -> bool
 
 val param_views :
